@@ -111,7 +111,8 @@ def juniper_nonrandom_encrypt(plain: str, salt: str = None) -> str:
     Returns:
       String representing the encrypted secret.
     """
-    if salt is None:
+    if not salt or salt[0] not in EXTRA:
+        # No usable salt character (salt missing, empty or outside the $9$ alphabet)
         salt = _fixedc(1)
     salt = salt[0]
     rand = _fixedc(EXTRA[salt])
